@@ -2,7 +2,7 @@ use pretty::{Arena, DocAllocator};
 use typst_syntax::{ast::*, SyntaxKind, SyntaxNode};
 
 use super::{util::has_comment_children, ArenaDoc, Context, Mode};
-use crate::PrettyPrinter;
+use crate::{ext::StrExt, PrettyPrinter};
 
 impl<'a> PrettyPrinter<'a> {
     /// We do not care whether it is `Pattern` or `Expr`.
@@ -40,7 +40,11 @@ impl<'a> PrettyPrinter<'a> {
         }
         // A line comment forces a line break inside the body. That break ends a statement
         // between braces, but not between parentheses.
-        let use_braces = use_braces && !contains_line_comment(expr.to_untyped());
+        // So does a line break inside a body that is reproduced verbatim (`@typstyle off`).
+        let use_braces = use_braces
+            && !contains_line_comment(expr.to_untyped())
+            && !(self.attr_store.is_format_disabled(expr.to_untyped())
+                && expr.to_untyped().clone().into_text().has_linebreak());
         let (mode, delims) = if use_braces {
             (Mode::Code, ("{", "}"))
         } else {
